@@ -11,5 +11,5 @@ for d in $seeds; do
   esac
   re=$(grep -o "^func Test[A-Za-z0-9_]*" $d/demo_test.go | sed 's/func //' | tr '\n' '|' | sed 's/|$//')
   echo "== $d ($dir, $re)"
-  /verif/confirm_seed.sh /verif/seeded/$d $dir "^($re)\$" 2>&1 | head -3
+  /verif/confirm_seed.sh /verif/seeded/$d $dir "^($re)\$" 2>&1 | head -12
 done
